@@ -37,12 +37,18 @@ def check(run):
     run.rule('AGG.table', A.RULES['AGG.table'])
     for cfg in configs(run):
         F = run.facts(cfg)
+        # helpers this property stands on (rule sets owned by other properties, see common.deps)
+        from common import deps as _deps
+        _deps(run, F, 'isnone', 'casts')
         comparators(run, F)
         quantile(run, F)
         rank(run, F)
         partitions(run, F)
         A.check_tables(run, F)     # includes the percentile-of counting table
         pct_of(run, F)
+    # every container the generic code can be instantiated with hands out its elements in logical order
+    from common import dep_backends as _dep_backends
+    _dep_backends(run)
     return run.finish(
         'other',
         'Structure of the order statistics: only the null-last comparators are used and the '
